@@ -48,6 +48,11 @@ def is_boolish(n):
     return False
 
 
+def sym_key(n):
+    """canonical order of the operands of a symmetric operator (`==`, `!=`, `min`, `max`): harmless swaps give one term"""
+    return (isinstance(n, ast.Constant), ast.dump(n))
+
+
 class Tr:
     def __init__(self, self_name, params):
         self.self_name = self_name
@@ -96,6 +101,8 @@ class Tr:
             if isinstance(op, ast.NotIn):
                 return ['not', ['isIn', self.expr(l), self.expr(r)]]
             if type(op) in CMP:
+                if isinstance(op, (ast.Eq, ast.NotEq)) and sym_key(l) > sym_key(r):
+                    l, r = r, l         # `0 == x` and `x == 0` are one term (names before constants, then alphabetical)
                 return ['cmp', CMP[type(op)], self.expr(l), self.expr(r)]
             miss(n, 'comparison')
         if isinstance(n, ast.BoolOp):
